@@ -6,6 +6,6 @@ if [ "$1" = "-R" ]; then rev="-R"; shift; fi
 patch="$1"; shift; [ "$1" = "--" ] && shift
 git -C /repo diff --quiet || { echo "/repo working tree is not clean"; exit 9; }
 git -C /repo apply $rev "$patch" || { echo "patch does not apply"; exit 9; }
-"$@"; rc=$?
+VERIF_EVIDENCE_SCRATCH=1 "$@"; rc=$?
 git -C /repo checkout -- . ; git -C /repo clean -fdq
 exit $rc
